@@ -156,6 +156,7 @@ type DynBuf interface {
 	Ptr() any
 	HeaderPtr() uintptr
 	ElemSize() int
+	SliceSink(s, e int)
 }
 
 type B[T signal.SignalTypes] struct {
@@ -195,6 +196,11 @@ func (x *B[T]) ChanShape(c int) (int, int, int) {
 	ch := x.b.Channel(c)
 	return ch.Channels(), ch.Length(), ch.Capacity()
 }
+
+// SliceSink calls Slice without the harness wrapper; the result escapes into a package-level sink.
+func (x *B[T]) SliceSink(s, e int) { sinkAny = x.b.Slice(s, e) }
+
+var sinkAny any
 
 func wrapBuf[T signal.SignalTypes](b *signal.Buffer[T], k Kind, named bool) DynBuf {
 	return &B[T]{b, k, named}
@@ -272,6 +278,7 @@ type DynPool interface {
 	Get() DynBuf
 	Put(b DynBuf)
 	Kind() Kind
+	Cycle(v uint64)
 }
 
 type P[T signal.SignalTypes] struct {
@@ -279,9 +286,16 @@ type P[T signal.SignalTypes] struct {
 	k Kind
 }
 
-func (x *P[T]) Get() DynBuf   { return &B[T]{x.p.Get(), x.k, false} }
-func (x *P[T]) Put(b DynBuf)  { x.p.Put(b.(*B[T]).b) }
-func (x *P[T]) Kind() Kind    { return x.k }
+func (x *P[T]) Get() DynBuf  { return &B[T]{x.p.Get(), x.k, false} }
+func (x *P[T]) Put(b DynBuf) { x.p.Put(b.(*B[T]).b) }
+func (x *P[T]) Kind() Kind   { return x.k }
+
+// Cycle is one get / use / put cycle without the harness wrapper.
+func (x *P[T]) Cycle(v uint64) {
+	b := x.p.Get()
+	b.AppendSample(dec[T](v, x.k))
+	x.p.Put(b)
+}
 
 func poolT[T signal.SignalTypes](a signal.Allocator, k Kind) DynPool {
 	return &P[T]{signal.PoolAlloc[T](a), k}
